@@ -23,7 +23,8 @@
 #undef protected
 
 // ---- scheduling points (harness/future_points.h is force-included: every __sync builtin in
-// Future.cpp calls verif_point first) ------------------------------------------------------------
+// Future.cpp calls verif_point before and verif_after after the builtin; libnstd's
+// pthread_cond_wait / pthread_cond_broadcast are wrapped with ld --wrap) -------------------------
 // perturbation mode: per-thread xorshift stream seeded by (case seed, thread arrival number);
 // level 0 = off, 1 = mostly yields, 2 = yields + short sleeps, 3 = heavy (long sleeps at few points)
 static volatile int g_perturb = 0;
